@@ -35,6 +35,7 @@ type world struct {
 	tagset   map[string]bool
 	wcap     int                      // pressure histories: the static size of the outbound buffers (0 = production)
 	held     map[*stepper.Peer][]byte // second halves of split replies not yet delivered
+	choices  bool                     // replica reads enabled: record which node each queued fragment was routed to
 }
 
 type worldCfg struct {
@@ -234,7 +235,27 @@ func (w *world) clientData(c int, b []byte) {
 	if w.closedC[c] || p.EOF || !w.s.L.IsOpen(p.ProxyFd) {
 		return
 	}
+	var pre sx.V
+	if w.choices {
+		pre = w.observe()
+	}
 	w.s.Send(p, b)
+	if w.choices {
+		// replica reads: route draws a random number per fragment; what it chose shows in the write
+		// queues before any write round runs.  The model is told the choices (it checks that route
+		// could have made them) in an event of its own, ahead of the bytes.
+		var ch []sx.V
+		for _, bk := range w.s.Backends {
+			if w.closedS[bk] || bk.EOF {
+				continue // its descriptor number may belong to a newer connection by now
+			}
+			for _, q := range w.s.L.OutFragReqs(bk.ProxyFd) {
+				ch = append(ch, sx.L(sx.B(q), sx.S(bk.Addr)))
+			}
+		}
+		w.events = append(w.events, sx.L(sx.I(10), sx.L(ch...)))
+		w.obs = append(w.obs, pre)
+	}
 	// how many connections have been dialled to each node so far (the order in which a request that
 	// fails to route had reached its fragments is Go map order)
 	counts := map[string]int{}
